@@ -388,9 +388,15 @@ def shrink(mod, drv, spec, limit=200):
     if not hasattr(mod, "shrink"):
         return spec
     cur, evals, progress = spec, 0, True
+    def candidates(spec):
+        # a shrinker that re-executes the case (to concretise a seeded history) can hit the very failure it is shrinking
+        try:
+            yield from mod.shrink(spec)
+        except Exception:
+            return
     while progress and evals < limit:
         progress = False
-        for cand in mod.shrink(cur):
+        for cand in candidates(cur):
             evals += 1
             if evals > limit:
                 break
